@@ -66,7 +66,7 @@ theorem pe_gn (t : Tok) : startsWith PE (GN ++ t) = false := by simp [startsWith
 
 /-! ### one-digit existence level -/
 
-theorem parseNat_digit (k : Nat) (hk : k < 10) : parseNat [Nat.digitChar k] = some k := by
+theorem parseInt_digit (k : Nat) (hk : k < 10) : parseInt [Nat.digitChar k] = some (k : Int) := by
   have : k = 0 ∨ k = 1 ∨ k = 2 ∨ k = 3 ∨ k = 4 ∨ k = 5 ∨ k = 6 ∨ k = 7 ∨ k = 8 ∨ k = 9 := by omega
   rcases this with h | h | h | h | h | h | h | h | h | h <;> subst h <;> decide
 
@@ -275,7 +275,7 @@ theorem parseGene_compose (f : Fields) (h : f.WF) : parseGene (compose f) = f.ge
       · subst ht; exact gn_pe _
       · subst ht; exact gn_sv _
 
-theorem parseExistence_compose (f : Fields) (h : f.WF) : parseExistence (compose f) = some (some f.pe) := by
+theorem parseExistence_compose (f : Fields) (h : f.WF) : parseExistence (compose f) = some (some (f.pe : Int)) := by
   obtain ⟨o, os, ho⟩ := List.exists_cons_of_ne_nil h.orgNonempty
   have hpe : ∀ t ∈ os, startsWith PE t = false := fun t ht => h.orgPE t (by rw [ho]; exact ht)
   unfold parseExistence
@@ -284,7 +284,7 @@ theorem parseExistence_compose (f : Fields) (h : f.WF) : parseExistence (compose
       (f.desc ++ [OS ++ o] ++ os ++ [OX ++ f.ox] ++ geneToks f) ++ peTok f :: [SV ++ f.sv] := by
     simp
   rw [this, fromFirst_append _ _ _ _ _ (by unfold peTok; exact startsWith_append PE _)]
-  · simp only [Option.map_some, peTok, drop_key, parseNat_digit f.pe h.peDigit]
+  · simp only [Option.map_some, peTok, drop_key, parseInt_digit f.pe h.peDigit]
   · intro t ht
     simp only [List.mem_append, List.mem_cons, List.not_mem_nil, or_false] at ht
     rcases ht with (((ht | ht) | ht) | ht) | ht
@@ -335,7 +335,7 @@ def expected (rule : IdRule) (f : Fields) (n : Nat) : Annotation :=
   { id := match rule with | .full => some f.ident | .accession => some f.acc | .gene => f.gene,
     header := render f, uniprotId := f.acc, entryName := f.entry, geneName := f.gene, length := n,
     organism := some (unwords (f.org ++ [OX ++ f.ox] ++ (if f.gene.isSome then [] else [peTok f, SV ++ f.sv]))),
-    description := unwords f.desc, existence := some f.pe }
+    description := unwords f.desc, existence := some (f.pe : Int) }
 
 theorem annotate_render (rule : IdRule) (f : Fields) (h : f.WF) (hb : f.NoBlank) (n : Nat) :
     annotate rule (render f) n = .ok (expected rule f n) := by
@@ -495,6 +495,57 @@ def FastaRecord.lines (r : FastaRecord) : List (List Char) := ('>' :: r.header) 
 def FastaRecord.Clean (r : FastaRecord) : Prop :=
   r.header ≠ [] ∧ rstrip ('>' :: r.header) = '>' :: r.header ∧
     ∀ l ∈ r.seqLines, rstrip l = l ∧ l.head? ≠ some '>'
+
+/-! ### Python's white space: what `Clean` says -/
+
+/-- the 29 code points of Python's `str.isspace` -/
+def pySpaceCodePoints : List Nat :=
+  [0x09, 0x0A, 0x0B, 0x0C, 0x0D, 0x1C, 0x1D, 0x1E, 0x1F, 0x20, 0x85, 0xA0, 0x1680,
+   0x2000, 0x2001, 0x2002, 0x2003, 0x2004, 0x2005, 0x2006, 0x2007, 0x2008, 0x2009, 0x200A,
+   0x2028, 0x2029, 0x202F, 0x205F, 0x3000]
+
+theorem isSpace_iff_mem (c : Char) : isSpace c = true ↔ c.toNat ∈ pySpaceCodePoints := by
+  unfold isSpace pySpaceCodePoints
+  simp only [Bool.or_eq_true, Bool.and_eq_true, decide_eq_true_eq, beq_iff_eq, List.mem_cons, List.not_mem_nil,
+    or_false]
+  omega
+
+theorem rstrip_eq_self_iff (l : List Char) :
+    rstrip l = l ↔ ∀ c, l.getLast? = some c → isSpace c = false := by
+  unfold rstrip
+  rcases List.eq_nil_or_concat l with rfl | ⟨l', c, rfl⟩
+  · simp
+  · simp only [List.concat_eq_append, List.reverse_append, List.reverse_cons, List.reverse_nil, List.nil_append, List.singleton_append,
+      List.getLast?_append, List.getLast?_singleton, Option.some_or, Option.some.injEq, forall_eq']
+    cases h : isSpace c
+    · simp [List.dropWhile, h]
+    · simp only [List.dropWhile, h, reduceCtorEq, iff_false]
+      intro heq
+      have := congrArg List.length heq
+      have h2 := (List.dropWhile_suffix (l := l'.reverse) isSpace).length_le
+      simp at this h2
+      omega
+
+/-- `Clean`, spelled out: the header is not empty, and neither the header nor a sequence line ENDS in a character of
+    Python's white space (`isSpace`: the 29 code points of `str.isspace`, `isSpace_iff_mem`) -/
+theorem FastaRecord.clean_iff (r : FastaRecord) :
+    r.Clean ↔ r.header ≠ [] ∧ (∀ c, r.header.getLast? = some c → isSpace c = false) ∧
+      ∀ l ∈ r.seqLines, (∀ c, l.getLast? = some c → isSpace c = false) ∧ l.head? ≠ some '>' := by
+  unfold FastaRecord.Clean
+  constructor
+  · rintro ⟨h1, h2, h3⟩
+    refine ⟨h1, ?_, fun l hl => ⟨(rstrip_eq_self_iff l).mp (h3 l hl).1, (h3 l hl).2⟩⟩
+    intro c hc
+    apply (rstrip_eq_self_iff _).mp h2 c
+    rw [List.getLast?_cons, hc]; rfl
+  · rintro ⟨h1, h2, h3⟩
+    refine ⟨h1, ?_, fun l hl => ⟨(rstrip_eq_self_iff l).mpr (h3 l hl).1, (h3 l hl).2⟩⟩
+    apply (rstrip_eq_self_iff _).mpr
+    intro c hc
+    rw [List.getLast?_cons] at hc
+    cases hl : r.header.getLast? with
+    | none => exact absurd (List.getLast?_eq_none_iff.mp hl) h1
+    | some d => rw [hl] at hc; simp at hc; subst hc; exact h2 d hl
 
 def FastaRecord.seqLength (r : FastaRecord) : Nat := (r.seqLines.map List.length).sum
 
